@@ -296,6 +296,7 @@ static std::string pre_fields(const std::vector<std::string>& f)
     }
     e += "]";
     e += ",\"di\":" + (di.empty() ? std::string("0") : std::to_string(atoi(di.c_str())));
+    e += std::string(",\"ni\":") + (di.empty() ? "0" : "1");
     e += ",\"cb\":" + (cb.empty() ? std::string("[]") : cb);
   }
   return e;
